@@ -368,6 +368,70 @@ def sig_of(segs, req):
     return f"recipe[{kinds}]"
 
 
+def directed_recipes(rep):
+    """public-API scenarios that random recipes reach rarely: a predicate that is an OR of exact classes after a chaining
+    provider for one of them; extend() given a provider object the retort already holds"""
+    from dataclasses import dataclass
+
+    from adaptix import Chain, P, Retort, loader
+
+    def f(x):
+        return ("f", x)
+
+    def g(x):
+        return ("g", x)
+    n = 0
+    ors = {"P[int, str]": lambda: P[int, str], "P[int] | P[str]": lambda: P[int] | P[str], "P[str, int]": lambda: P[str, int],
+           "P[int, str, bytes]": lambda: P[int, str, bytes]}
+    for oname, mk in ors.items():
+        for chain, want_int in ((Chain.FIRST, ("g", ("f", 1))), (Chain.LAST, ("f", ("g", 1)))):
+            for first_pred, req, datum, want in ((int, int, 1, want_int), (int, str, "s", ("g", "s")), (str, int, 1, ("g", 1))):
+                n += 1
+                rt = Retort(recipe=[loader(first_pred, f, chain), loader(mk(), g)])
+                try:
+                    got = rt.load(datum, req)
+                except Exception as e:  # noqa: BLE001
+                    got = f"raises {type(e).__name__}"
+                if got != want:
+                    rep.violation(f"directed:or-of-exact-after-chain:{chain.name}", "property-violated",
+                                  {"what": f"recipe [loader({first_pred.__name__}, f, Chain.{chain.name}), loader({oname}, g)], load({datum!r}, "
+                                           f"{req.__name__}) = {got!r}; the next matching provider in recipe order gives {want!r}"})
+
+    @dataclass
+    class Model:
+        value: int
+
+    inc = loader(int, lambda x: x + 1, Chain.FIRST)
+    int_l = loader(int, lambda x: "int-loader")
+    field_l = loader(P[Model].value, lambda x: "field-loader")
+    cases = [
+        ("[inc].extend([inc])", lambda: Retort(recipe=[inc]).extend(recipe=[inc]).load(1, int), lambda: Retort(recipe=[inc, inc]).load(1, int)),
+        ("[field, int].extend([int])", lambda: Retort(recipe=[field_l, int_l]).extend(recipe=[int_l]).load({"value": 1}, Model),
+         lambda: Retort(recipe=[int_l, field_l, int_l]).load({"value": 1}, Model)),
+        ("[field, int].extend([int, field])", lambda: Retort(recipe=[field_l, int_l]).extend(recipe=[int_l, field_l]).load({"value": 1}, Model),
+         lambda: Retort(recipe=[int_l, field_l, field_l, int_l]).load({"value": 1}, Model)),
+        ("used [field, int].extend([int])", lambda: _used(Retort(recipe=[field_l, int_l]), Model).extend(recipe=[int_l]).load({"value": 1}, Model),
+         lambda: Retort(recipe=[int_l, field_l, int_l]).load({"value": 1}, Model)),
+    ]
+    for label, got_f, want_f in cases:
+        n += 1
+        try:
+            got = got_f()
+        except Exception as e:  # noqa: BLE001
+            got = f"raises {type(e).__name__}"
+        want = want_f()
+        if got != want:
+            rep.violation("directed:extend-with-held-provider", "property-violated",
+                          {"what": f"{label}: extend() prepends, so the result must equal that of the retort built with the concatenated "
+                                   f"recipe: got {got!r}, expected {want!r}"})
+    return n
+
+
+def _used(rt, tp):
+    rt.get_loader(tp)
+    return rt
+
+
 def run(rep, tier, seed):
     proof = lib.proof_stage(rep, PID)
     world = World()
@@ -421,6 +485,7 @@ def run(rep, tier, seed):
                       {"case": {"segments": segs, "request": req, "variant": variant},
                        "library": expected[idx], "model": got})
     nontriv = {repr(c) for c in cases if len(c[0][0] + c[0][1] + c[0][2] + c[0][3]) >= 2}
+    rc_total += directed_recipes(rep)
     rep.cov.update({
         "evaluations": len(cases) + rc_total, "recursive_chain_cases": rc_total, "distinct_nontrivial": len(nontriv),
         "rule": "recipes of 1-8 providers (exact-class / other predicates rendered as abstract class, P combinators, "
